@@ -272,8 +272,21 @@ pub fn run(ctx: &Ctx) -> (Stats, Spec) {
             }
         }
     }
+    // inputs larger than any I/O buffer: thousands of duplicate records, very long vertex names
+    {
+        let long_a = format!("a{}", "x".repeat(4_000));
+        let long_b = format!("b{}", "y".repeat(5_000));
+        let tri = format!("{a},{b}\n{b},{a}\n{b},c\nc,{b}\n", a = long_a, b = long_b);
+        let many: String = "p,q\nq,p\n".repeat(1_500) + "q,r\nr,q\nr,s\n";
+        for (i, csv) in [tri, many].iter().enumerate() {
+            for (u, a) in [(false, false), (true, false), (false, true)] {
+                check_case(ctx, &mut st, &Case { csv: csv.clone(), undirected: u, all: a, io: (i % 2) as u8 }, &format!("large-{}-{}{}", i, u as u8, a as u8));
+                st.bump("large_inputs");
+            }
+        }
+    }
     let spec = Spec {
-        rule: "edge lists: every digraph on 3 vertices (4 vertices: every 4th [quick] / all [thorough]) x {-u} x {-a}, random graphs on 5-6 (thorough: also 7-8) vertices with self-loops, duplicates, one-directional edges, shuffled rows, LF / CRLF line ends, missing final newline and quoted fields, empty and complete graphs; vertex names plain, with ' _ digits, non-ASCII, the pair {x, v_x}, and name families that collide under string concatenation / prefixing ({a, b, a_b, b_a, a_b_a}, {v, v_v, v_, _v}, {n, n1, n10, n_1}); input via file or stdin, output via stdout or file. The emitted text is parsed and evaluated by the reference; for EVERY subset of the vertices 'is a model' must equal 'is a (maximum) clique'. distinct = (edge set, flags); non-trivial = at least one edge and one non-adjacent pair.".into(),
+        rule: "edge lists: every digraph on 3 vertices (4 vertices: every 4th [quick] / all [thorough]) x {-u} x {-a}, random graphs on 5-6 (thorough: also 7-8) vertices with self-loops, duplicates, one-directional edges, shuffled rows, LF / CRLF line ends, missing final newline and quoted fields, empty and complete graphs; inputs beyond 8 KiB (thousands of duplicate records, vertex names of 4-5 thousand characters); vertex names plain, with ' _ digits, non-ASCII, the pair {x, v_x}, and name families that collide under string concatenation / prefixing ({a, b, a_b, b_a, a_b_a}, {v, v_v, v_, _v}, {n, n1, n10, n_1}); input via file or stdin, output via stdout or file. The emitted text is parsed and evaluated by the reference; for EVERY subset of the vertices 'is a model' must equal 'is a (maximum) clique'. distinct = (edge set, flags); non-trivial = at least one edge and one non-adjacent pair.".into(),
         assumptions: vec![
             "vertex names are identifiers that are not keywords of the formula language (as the statement says)".into(),
             "adjacency: with -u an edge in either direction; without it both directions must be present; self-loops are ignored".into(),
